@@ -194,6 +194,7 @@ type dialer struct {
 	proto mangos.ProtocolInfo
 	opts  options
 	iswss bool
+	lock  sync.Mutex
 }
 
 func (d *dialer) Dial() (transport.Pipe, error) {
@@ -202,6 +203,7 @@ func (d *dialer) Dial() (transport.Pipe, error) {
 	wd := &websocket.Dialer{}
 
 	wd.Subprotocols = []string{d.proto.PeerName + ".sp.nanomsg.org"}
+	d.lock.Lock()
 	if v, ok := d.opts[mangos.OptionTLSConfig]; ok {
 		wd.TLSClientConfig = v.(*tls.Config)
 	}
@@ -219,6 +221,7 @@ func (d *dialer) Dial() (transport.Pipe, error) {
 	if err == nil {
 		maxrx, _ = v.(int)
 	}
+	d.lock.Unlock()
 	if w.ws, _, err = wd.Dial(d.addr, nil); err != nil {
 		if err == websocket.ErrBadHandshake {
 			return nil, mangos.ErrBadProto
@@ -237,10 +240,14 @@ func (d *dialer) Dial() (transport.Pipe, error) {
 }
 
 func (d *dialer) SetOption(n string, v interface{}) error {
+	d.lock.Lock()
+	defer d.lock.Unlock()
 	return d.opts.set(n, v)
 }
 
 func (d *dialer) GetOption(n string) (interface{}, error) {
+	d.lock.Lock()
+	defer d.lock.Unlock()
 	return d.opts.get(n)
 }
 
@@ -265,6 +272,8 @@ type listener struct {
 }
 
 func (l *listener) SetOption(n string, v interface{}) error {
+	l.lock.Lock()
+	defer l.lock.Unlock()
 	switch n {
 	case OptionWebSocketCheckOrigin:
 		if v, ok := v.(bool); ok {
@@ -279,6 +288,8 @@ func (l *listener) SetOption(n string, v interface{}) error {
 }
 
 func (l *listener) GetOption(n string) (interface{}, error) {
+	l.lock.Lock()
+	defer l.lock.Unlock()
 	switch n {
 	case OptionWebSocketMux:
 		return l.mux, nil
@@ -307,6 +318,8 @@ func (l *listener) Listen() error {
 	var err error
 	var tcfg *tls.Config
 
+	l.lock.Lock()
+	defer l.lock.Unlock()
 	if l.closed {
 		return mangos.ErrClosed
 	}
@@ -458,8 +471,9 @@ func (l *listener) ServeHTTP(w http.ResponseWriter, r *http.Request) {
 		http.Error(w, "No handler at that address", http.StatusNotFound)
 		return
 	}
+	ug := l.ug
 	l.lock.Unlock()
-	ws, err := l.ug.Upgrade(w, r, nil)
+	ws, err := ug.Upgrade(w, r, nil)
 	if err != nil {
 		return
 	}
@@ -467,12 +481,13 @@ func (l *listener) ServeHTTP(w http.ResponseWriter, r *http.Request) {
 }
 
 func (l *listener) Address() string {
+	l.lock.Lock()
+	defer l.lock.Unlock()
+	u := *l.url
 	if l.anon {
-		u := l.url
 		u.Host = fmt.Sprintf("%s:%d", u.Hostname(), l.bound.Port)
-		return u.String()
 	}
-	return l.url.String()
+	return u.String()
 }
 
 func (wsTran) Scheme() string {
